@@ -53,60 +53,62 @@ type violation struct {
 }
 
 type pathState struct {
-	prefix   []int
-	pos      int
-	taken    []int
-	pc       []*Term
-	nondets  []nondetRec
-	nondetIx map[string]int
-	viol     []violation
-	reach    map[string]map[string]uint64
-	reachND  map[string][]nondetRec
-	asserts  int // assertion queries asked
-	disch    int // answered unsat (or concretely true)
-	concTrue int
-	incon    []string
-	newWork  [][]int
-	observes []string
-	obsIDs   []string
-	obsVals  []iface
-	reachObs map[string][]string
-	known    []string
+	prefix    []int
+	pos       int
+	taken     []int
+	pc        []*Term
+	nondets   []nondetRec
+	nondetIx  map[string]int
+	viol      []violation
+	reach     map[string]map[string]uint64
+	reachND   map[string][]nondetRec
+	asserts   int // assertion queries asked
+	disch     int // answered unsat (or concretely true)
+	concTrue  int
+	incon     []string
+	newWork   [][]int
+	observes  []string
+	obsIDs    []string
+	obsVals   []iface
+	reachObs  map[string][]string
+	known     []string
 	badger    map[string]*bdb // Badger model: databases by directory
 	badgerErr *value
 	tmpDirs   int
 }
 
 type machine struct {
-	eng        *engine
-	tt         *termTable
-	sol        *solver
-	globals    map[*ssa.Global]*value
-	inited     map[*ssa.Package]bool
-	p          *pathState
-	steps      int64
-	maxSteps   int64
-	unwind     int
-	depth      int
-	inInit     bool
-	hashMemo   []hashEntry
-	sigs       []*sigRec
-	keyObjs    map[int]*value
-	fnCache    map[*ssa.Function]intrinsic
-	ctr        int
-	trace      bool
-	funcsHit   map[string]bool
-	timeout    int
-	crashDepth int
-	noIfConv   bool
-	merges     int
-	onceDone   map[string]bool
-	mapRot     int
-	mapRotOn   bool
-	solFP      *solver
-	merging    int
-	curPos     string
-	testErrors []string
+	eng           *engine
+	tt            *termTable
+	sol           *solver
+	globals       map[*ssa.Global]*value
+	inited        map[*ssa.Package]bool
+	p             *pathState
+	steps         int64
+	maxSteps      int64
+	unwind        int
+	depth         int
+	inInit        bool
+	curFrame      *frame // frame of the intrinsic that is decoding JSON (for UnmarshalJSON hooks)
+	jsonHookDepth int
+	hashMemo      []hashEntry
+	sigs          []*sigRec
+	keyObjs       map[int]*value
+	fnCache       map[*ssa.Function]intrinsic
+	ctr           int
+	trace         bool
+	funcsHit      map[string]bool
+	timeout       int
+	crashDepth    int
+	noIfConv      bool
+	merges        int
+	onceDone      map[string]bool
+	mapRot        int
+	mapRotOn      bool
+	solFP         *solver
+	merging       int
+	curPos        string
+	testErrors    []string
 }
 
 func (m *machine) get(fr *frame, key ssa.Value) value {
